@@ -175,4 +175,45 @@ ASSUME \A w \in {"eval", "dot"} :
          IN Fired(r) = <<1>> /\ r.st = 1 /\ r.fired
 \* ... but not in the condition of an if (XCU set -e, exception 2)
 ASSUME LET r == R(If(Eval(SeqL(<<Mk(1, 1), Echo(2)>>)), Echo(3)), 1, 0) IN Fired(r) = <<1, 2, 3>>
+
+\* ---- error-p.sh / command-p.sh / termination.md "Shell errors" (leaf `fail c`; C10) ----
+Fail(c) == L("fail", 0, c, 0)
+\* 'expansion error kills non-interactive shell', 'assignment error without
+\* command kills ...', 'assignment error on command X kills ...', 'redirection
+\* error on special built-in X kills ...'; termination.md: errors in special
+\* built-ins: "echo not reached", non-zero exit status
+ASSUME \A c \in {"exp", "asg", "asgc", "spr", "sp"} :
+         LET r == R(SeqL(<<Fail(c), Echo(1)>>), 0, 0) IN Fired(r) = <<>> /\ r.st < 0 /\ r.x = "exit"
+\* '... in subshell': (a=b; echo not reached); [ $? -ne 0 ]; echo $?
+ASSUME \A c \in {"exp", "asg", "asgc", "spr", "sp"} :
+         LET r == R(SeqL(<<Subsh(SeqL(<<Fail(c), Echo(1)>>)), P(2)>>), 0, 0)
+         IN Fired(r) = <<2>> /\ r.tr[1][2] < 0 /\ r.x = "none"
+\* 'redirection error on compound command spares non-interactive shell',
+\* '... on function spares ...': printf 'reached\n'
+ASSUME LET r == R(SeqL(<<Fail("cmpr"), Echo(1)>>), 0, 0) IN Fired(r) = <<1>> /\ r.st = 0 /\ r.x = "none"
+\* 'redirection error on non-special built-in cd spares shell': cd <_no_such_file_; test $? -ne 0 && echo ok
+ASSUME LET r == R(SeqL(<<Fail("regr"), P(1)>>), 0, 0) IN r.tr = <<<<1, -10>>>> /\ r.x = "none"
+\* command-p.sh 'redirection error on special built-in does not kill shell' (command : <_no_such_file_),
+\* 'dot script not found does not kill shell' (command . ./_no_such_file_): echo reached
+ASSUME \A c \in {"regr", "cmdsp"} : Fired(R(SeqL(<<Fail(c), Echo(1)>>), 0, 0)) = <<1>>
+\* termination.md: redirection errors (except for special built-ins): "The shell exits if errexit is
+\* set. Otherwise, it continues with the next command."; exit_status.md "Exiting on errors": not in
+\* the condition of an if
+ASSUME \A c \in {"reg", "cmdsp", "regr", "cmpr"} :
+         /\ LET r == R(SeqL(<<Fail(c), Echo(1)>>), 1, 0) IN Fired(r) = <<>> /\ r.st < 0 /\ r.fired
+         /\ Fired(R(SeqL(<<If(Fail(c), Echo(1)), Echo(2)>>), 1, 0)) = <<2>>
+\* termination.md: a shell error exits also when -e is being ignored; the EXIT trap runs "regardless
+\* of how the shell exits, whether due to an error, ..."
+ASSUME \A c \in {"exp", "asg", "asgc", "spr", "sp"} : \A e \in {0, 1} :
+         LET r == R(SeqL(<<Trap(-2, 1), If(Fail(c), Echo(2)), Echo(3)>>), e, 0)
+         IN Fired(r) = <<1>> /\ r.nt = 1 /\ r.st < 0
+\* the same errors in the operand of eval, in a dot script, in a function called by eval
+ASSUME \A c \in {"exp", "sp"} : \A w \in {"eval", "dot", "fn"} :
+         LET t == CASE w = "eval" -> Eval(Fail(c)) [] w = "dot" -> Dot(Fail(c))
+                    [] OTHER -> SeqL(<<Def("f", Fail(c)), Eval(Inv("f"))>>)
+             r == R(SeqL(<<t, Echo(3)>>), 0, 0)
+         IN Fired(r) = <<>> /\ r.x = "exit"
+ASSUME \A w \in {"eval", "dot"} :
+         LET t == IF w = "eval" THEN Eval(Fail("reg")) ELSE Dot(Fail("reg"))
+         IN R(SeqL(<<t, P(3)>>), 0, 0).tr = <<<<3, -10>>>>
 =============================================================================
